@@ -24,7 +24,7 @@ MUTATORS = {"append", "appendleft", "extend", "extendleft", "pop", "popleft", "c
 def queue_ops(an: Analysis):
     qq = an.prog.cls(Q).qualname
     out = []
-    for fi in an.prog.functions.values():
+    for fi in an.prog.scan_functions():
         for n in fi.own_nodes():
             # method calls on <AsyncQueue>._queue
             if isinstance(n, ast.Call) and isinstance(n.func, ast.Attribute) and isinstance(n.func.value, ast.Attribute) and n.func.value.attr == "_queue":
